@@ -432,7 +432,45 @@ func GridFor(o Offer, full bool, rg *rand.Rand) []GridCase {
 			out = append(out, GridCase{Dim: "cert12", Val: kind, Server: c2, WantVersion: tls.VersionTLS12, WantHRR: -1})
 		}
 	}
+	// a server that has ECH keys of its own (and offers them as retry configs): a client that
+	// does not use ECH, or only sends a GREASE ECH extension, is served as ever
+	if has13 {
+		for _, retry := range []bool{true, false} {
+			c := base()
+			c.EncryptedClientHelloKeys = peer.ECHServerKeys(retry, gridECHKey())
+			out = append(out, GridCase{Dim: "server-ech-keys", Val: fmt.Sprintf("retry=%v", retry), Server: c, WantHRR: -1})
+		}
+		c := base()
+		c.EncryptedClientHelloKeys = peer.ECHServerKeys(true, gridECHKey())
+		if g := firstUnsharedGroup(o); g != 0 {
+			c.CurvePreferences = []tls.CurveID{tls.CurveID(g)}
+			out = append(out, GridCase{Dim: "server-ech-keys", Val: "retry=true+hrr", Server: c, WantHRR: 1, WantVersion: tls.VersionTLS13})
+		}
+	}
 	return out
+}
+
+var gridECHKey = sync.OnceValue(func() *peer.ECHKey { return peer.NewECHKey(3, "public.example.test", []uint16{1, 3}, 32) })
+
+// firstUnsharedGroup: a classical group the offer lists without a share (0: none).
+func firstUnsharedGroup(o Offer) uint16 {
+	for _, g := range []uint16{0x0018, 0x0017, 0x0019, 0x001d} {
+		listed, shared := false, false
+		for _, x := range o.Groups {
+			if x == g {
+				listed = true
+			}
+		}
+		for _, x := range o.Shares {
+			if x == g {
+				shared = true
+			}
+		}
+		if listed && !shared {
+			return g
+		}
+	}
+	return 0
 }
 
 // RunCase drives one handshake for (target, case).
